@@ -89,6 +89,12 @@ def cases(tier, rng, schema, feats):
             pairs.sort(key=lambda kv: (len(cbor.enc(kv[0])), cbor.enc(kv[0])))
             out.append(f"C15.reser.{n}\treser\t{sname}\t{cbor.enc(cbor.M(pairs)).hex()}")
             n += 1
+    # spellings the SOURCE's conversion tables mention that the specification does not know (none on the unchanged tree): judged by
+    # the property alone - if the implementation decodes the text, it must encode the value back to the same text
+    for t, sp in gen.novel_spellings(schema):
+        if schema[t].get("de") and schema[t].get("ser"):
+            out.append(f"C15.novel.{n}\treser\t{t}\t{cbor.enc(sp).hex()}")
+            n += 1
     gc = gen.Gen(schema, rng, tier, canonical=True)
     for t in ENCTY_TYPES + RESER_ONLY_TYPES:
         if t not in schema:
@@ -114,6 +120,13 @@ def cases(tier, rng, schema, feats):
 
 
 def judge(line, m, i):
+    if line.startswith("C15.novel."):
+        p = line.split("\t")
+        if i and i.startswith("ok ") and i[3:] != p[3]:
+            return "encode(decode(b)) differs from the canonical bytes b (a spelling the specification does not list)"
+        if core.norm(i) in ("panic", "missing", "hang"):
+            return "round trip did not return"
+        return None
     if (core.norm(m).startswith("ok") != core.norm(i).startswith("ok")):
         return "round trip succeeds on one side only (model of the specification vs implementation)"
     p = line.split("\t")
